@@ -60,7 +60,7 @@ def check_k(ctx, n, d, hname, digest, retry, extra, cls):
         outcome = None
     except Exception as ex:
         got, outcome = None, "raised %s: %s" % (type(ex).__name__, ex)
-    ctx.case(cls, key=key)
+    ctx.case(cls, key=key, sample=dict(order=n, d=d, hash=hname, digest=digest, retry_gen=retry, extra_entropy=extra, k_library=got, k_rfc6979=want, rejected_candidates=stats["rejected"]) if ctx.want(cls) else None)
     if stats["rejected"] >= 1:
         ctx.case("k.rejected_ge1", key=key)
     if retry:
